@@ -167,7 +167,10 @@ class CFG:
         n = self._new("stmt", st)
         self._of[id(st)] = n.id
         self._link(preds, n.id)
-        self._exc_edges(n.id)
+        cannot_raise = isinstance(st, (ast.Pass, ast.Continue, ast.Break)) or (
+            isinstance(st, ast.Return) and (st.value is None or isinstance(st.value, (ast.Constant, ast.Name))))
+        if not cannot_raise:
+            self._exc_edges(n.id)
         if isinstance(st, ast.Return):
             self._edge(n.id, self.exit)
             return []
